@@ -109,6 +109,8 @@ def run(repo: Repo, rep: Report, tier: str) -> None:
     _hc.report(repo, rep, "R07.7", _hc.field_default_contract(repo), "mashumaro.core.meta.code.builder::CodeBuilder.get_field_default")
     from ..core import helper_contracts as _hc2
     _hc2.report(repo, rep, "R09.6", _hc2.dataclass_fields_contract(repo), "mashumaro.core.meta.code.builder::CodeBuilder.dataclass_fields")
+    from ..core import siblings as _sib2
+    _sib2.check_own_method_tests(repo, rep, "R14.11")
 
 def _r07_4(repo: Repo, rep: Report, tier: str) -> None:
     fi = repo.func(M_BUILDER, "CodeBuilder._add_unpack_method_lines")
@@ -205,28 +207,37 @@ def _r07_4(repo: Repo, rep: Report, tier: str) -> None:
 def _r07_5(repo: Repo, rep: Report) -> None:
     # (a) init=False fields are skipped before any emission
     fi = repo.func(M_BUILDER, "CodeBuilder._add_unpack_method_lines")
-    ev = make_eval(repo, inline_depth=4, force_opaque={"build", "__get_field_alias"},
+    ev = make_eval(repo, inline_depth=4, force_opaque={"build", "__get_field_alias"}, generic_elems=2,
                    models={f"{M_BUILDER}::FieldUnpackerCodeBlockBuilder.build": corpus_mod.m_build_stub},
                    assume=[(r"lazy_compilation", False), (r"raises\[Unresolved", False), (r"get_discriminator", False),
                            (r"get_declared_hook", False), (r"B\.decoder is None", True), (r"bool\(B\.decoder\)", False),
                            (r"forbid_extra_keys", False), (r"get_config\(\)\.debug", False)])
     p = Path()
     paths = ev.run(fi, {"self": ev.builder_obj(p), "method_name": Sym("method_name", {"IDENT"})}, p)
-    n_skip = 0
+    n_skip = n_built = 0
+    seen_bad = set()
     for q in paths:
-        init_atoms = {k: v for k, v in q.atoms.items() if re.search(r"\.init\)", k)}
-        field_atoms = {k: v for k, v in q.atoms.items() if k.startswith("bool(B.dataclass_fields.get(")}
-        built = [e for e in q.events if e and e[0] == "build_call"]
-        non_init = any(v is False for v in init_atoms.values()) and any(v for v in field_atoms.values())
-        if non_init:
-            n_skip += 1
-            if built:
-                rep.violation("R07.5", fi.key, "field with init=False still gets a field block",
-                              "a member that is not a constructor parameter is read from the input", generated=q.text()[:500])
+        for w in q.worlds():
+            at = Path._view(w, "A|")
+            idn = Path._view(w, "I|")
+            built = [show(e[1]) for e in q.events if e and e[0] == "build_call"]
+            for i in (1, 2):
+                f = f"B.dataclass_fields.get(fname#{i})"
+                init = at.get(f"bool({f}.init)")
+                absent = at.get(f"bool({f})") is False or idn.get(f) == "None"
+                if f"fname#{i}" in built:
+                    n_built += 1
+                    if init is not True and not absent and i not in seen_bad:
+                        seen_bad.add(i)
+                        rep.violation("R07.5", fi.key, f"a field block is emitted for member #{i} although this path never established `field.init`",
+                                      "a member that is not a constructor parameter (init=False) is read from the input and passed to the constructor: TypeError for a present key",
+                                      generated=q.text()[:400], atoms={k: v for k, v in at.items() if "dataclass_fields" in k})
+                elif init is False:
+                    n_skip += 1
     if n_skip == 0:
-        rep.undecide("R07.5", "no generator path with `field.init` false found in _add_unpack_method_lines")
-    else:
-        rep.ok("R07.5", f"init=False fields produce no look-up ({n_skip} paths)", {"paths": n_skip})
+        rep.undecide("R07.5", "no generator path skips a member with `field.init` false in _add_unpack_method_lines")
+    elif not seen_bad:
+        rep.ok("R07.5", f"every emitted field block follows `field.init` true (or a member without Field); init=False members are skipped ({n_skip} skips, {n_built} blocks over two generic members)", {"skips": n_skip, "blocks": n_built})
     # (b) ClassVar / InitVar / KW_ONLY are filtered by __get_field_types
     gft = repo.func(M_BUILDER, "CodeBuilder.__get_field_types")
     ev2 = make_eval(repo, inline_depth=2, allow_inline={"__get_field_types"})
@@ -316,3 +327,6 @@ LEVEL_TEXT += _ADD2
 _ADD3 = " Borrowed: R09.6 (dataclass_fields: the nearest ancestor's Field wins; a bare re-annotation drops the inherited Field)."
 EXPLANATION += _ADD3
 LEVEL_TEXT += _ADD3
+_ADD6 = " Borrowed: R14.11 (a subclass must not run its parent's compiled unpacker)."
+EXPLANATION += _ADD6
+LEVEL_TEXT += _ADD6
